@@ -187,14 +187,43 @@ func RunCases(suite string, cases []*Case, rep *Report) {
 		}
 		// property monitor on the real code's own outputs
 		if c.Monitor != nil {
+			seen := map[string]bool{}
 			for _, v := range c.Monitor(c.Ops, c.Impl) {
 				v.Case = c.ID
 				if v.Ops == nil {
 					v.Ops = c.Ops
 					v.Impl = c.Impl
 				}
+				if seen[v.Property] {
+					continue // one (shrunk) report per property and case
+				}
+				seen[v.Property] = true
+				if c.Exec != nil && len(rep.Violations) < 4*maxReported {
+					prop := v.Property
+					has := func(o []string) *Violation {
+						im := c.Exec(o)
+						for _, w := range c.Monitor(o, im) {
+							if w.Property == prop {
+								w := w
+								if w.Ops == nil {
+									w.Ops, w.Impl = o, im
+								}
+								return &w
+							}
+						}
+						return nil
+					}
+					small := shrinkOps(v.Ops, func(o []string) bool { return has(o) != nil })
+					if w := has(small); w != nil {
+						w.Case = c.ID + "/shrunk"
+						w.Ops, w.Impl = small, c.Exec(small)
+						v = *w
+					}
+				}
 				if len(rep.Violations) < 4*maxReported {
 					rep.Violations = append(rep.Violations, v)
+				} else {
+					rep.Dist["violations_not_listed"]++
 				}
 			}
 		}
